@@ -71,7 +71,7 @@ func c01Report(l *evlog.Log) quicworld.Reporter {
 func TestVerifC01Faults(t *testing.T) {
 	l := evlog.Open("C01")
 	defer l.Close()
-	clients := []quicworld.ClientSel{{Client: "plain"}, {Client: "plain", V2: true}, {Client: "unil"}, {Client: "Chrome_115_IPv4"}, {Client: "Firefox_116A"}}
+	clients := []quicworld.ClientSel{{Client: "plain"}, {Client: "plain", V2: true}, {Client: "unil"}, {Client: "Chrome_115_IPv4"}, {Client: "Firefox_116A"}, {Client: "Firefox_116A~asym"}}
 	var cases []*quicworld.ConnCase
 	if l.Quick() {
 		cases = quicworld.FaultSuite(l, clients, []string{"S1", "S3"}, 8, 2500, 1000, 800)
